@@ -33,6 +33,8 @@ func watch(ch chan []tls.Certificate, refresh time.Duration, path string, loadFn
 		certs, err := loadCertificates(next)
 		if err != nil {
 			log.Printf("[ERROR] cert: Cannot make certificates: %s", err)
+			// wait before trying again to prevent a busy loop
+			time.Sleep(refresh)
 			continue
 		}
 
